@@ -185,7 +185,7 @@ class Statement(object):
         except Exception as error:
             raise TranslationError(str(error), self)
 
-    def determine_pcr_relative_sizes(self, statements, this_index):
+    def determine_pcr_relative_sizes(self, statements, this_index, force_16_bit=False):
         """
         Given a PCR relative operation, determine whether we have an 8-bit or 16-bit offset
         from the program counter. Mark the correct size for the statement when complete,
@@ -193,6 +193,7 @@ class Statement(object):
 
         :param statements: the full set of statements that make up the program
         :param this_index: the index that this instruction occurs at
+        :param force_16_bit: if True, settles on the 16-bit offset without looking at the span
         """
         # TODO: implement detection of 5-bit offsets as an optimization
         min_size = 0
@@ -220,6 +221,9 @@ class Statement(object):
             # a backward displacement also spans this instruction: opcode, post-byte and the 8-bit offset
             max_size += self.code_pkg.size + 1
             min_size += self.code_pkg.size + 1
+
+        if force_16_bit:
+            min_size = max_size = 0xFFFF
 
         if positive_range:
             if min_size <= 127 and max_size <= 127:
